@@ -89,8 +89,11 @@ def run(tier):
         if a is None or b is None:
             continue
         ck.count("iteration_doubling_pairs")
-        if a != b:
-            diff = {k: (a.get(k, 0), b.get(k, 0)) for k in set(a) | set(b) if a.get(k, 0) != b.get(k, 0)}
+        # the range cache (8 entries, evicted by insertion time stamps) makes the number of live
+        # ObjRange objects vary by up to the cache size from run to run: that is bounded, not growth
+        diff = {k: (a.get(k, 0), b.get(k, 0)) for k in set(a) | set(b)
+                if a.get(k, 0) != b.get(k, 0) and not (k == "ObjRange" and abs(a.get(k, 0) - b.get(k, 0)) <= 8)}
+        if diff:
             body, keep, n, src = meta["c%d:1" % pi]
             ck.violation("GrowsWithIterations(%s)" % ",".join(sorted(diff)),
                          {"body": body, "keep": keep, "N": n, "source": src,
